@@ -161,6 +161,7 @@ pub fn fingerprint(r: &ExecResult) -> String {
         (lc, t, who, s).hash(&mut h);
     }
     r.outcome.as_ref().map(|o| (&o.key, &o.violations)).hash(&mut h);
+    r.invariant_violations.hash(&mut h);
     r.liveness.hash(&mut h);
     r.panic.hash(&mut h);
     format!("{:016x}", h.finish())
@@ -184,6 +185,9 @@ fn verdict(r: &ExecResult) -> Option<(String, Vec<String>)> {
     }
     if let Some(p) = &r.panic {
         return Some(("panic".into(), vec![format!("panic escaped a task: {p}")]));
+    }
+    if !r.invariant_violations.is_empty() {
+        return Some(("property".into(), r.invariant_violations.iter().map(|v| format!("invariant at a step boundary: {v}")).collect()));
     }
     match &r.outcome {
         Some(o) if !o.violations.is_empty() => Some(("property".into(), o.violations.clone())),
